@@ -112,6 +112,10 @@ func execRun(t *testing.T, name string, sc scenario, o runOpts) *runResult {
 		if i < len(rb.obs) {
 			eb = rb.obs[i]
 		}
+		if d := os.Getenv("VSIM_TWIN_DUMP"); d != "" {
+			os.WriteFile(d+".a", []byte(strings.Join(ra.obs, "\n")), 0o644)
+			os.WriteFile(d+".b", []byte(strings.Join(rb.obs, "\n")), 0o644)
+		}
 		ra.Violation = &violation{Prop: prop, Class: class, Msg: fmt.Sprintf("%s; first difference at observable event %d: with the packet %q, in the reference run %q", msg, i, ea, eb)}
 	}
 	if ra.Extra == nil {
